@@ -10,5 +10,6 @@ func TestVerifReplay(t *testing.T) {
 	vrt.RunReplay(t, map[string]func(){
 		"VerifC04Quick":    VerifC04Quick,
 		"VerifC04Thorough": VerifC04Thorough,
+		"VerifC04Truncate": VerifC04Truncate,
 	})
 }
